@@ -883,6 +883,7 @@ def run_shard(rec, seed, shard, tier):
         arm_how_it_was_called(rec)
         arm_factories(rec)
         arm_signature_sources(rec)
+        real.error_formatting_probe(rec, "C07")
     for k in range(CASES[tier]):
         key = f"{seed}/C07/{shard['i']}/{k}"
         run_case(rec, random.Random(key), rngkey=key)
